@@ -112,8 +112,9 @@ CLAIMS = {
              "every offset of that identifier answers S's declaration and find-references at it lists the use (via "
              "logged_reference_answers: a logged reference is never overwritten - C06 NoReuse - and the log only grows: "
              "mkRec_later); references_exact / declaration_references_exact_partial (find-references answers exactly the logged "
-             "references; hkept fails exactly for body `let` overrides = the two listed findings). Residual: hlive (S is a live "
-             "symbol of the mid-run state) and hlater (established for every root statement by root_statement_midrun). Still the "
+             "references; hkept fails exactly for body `let` overrides on inherited fields = the two listed findings). "
+             "use_goes_to_declaration_root: no residual hypothesis (LiveInv through the whole indexer) for identifier initialisers of "
+             "fields in class / def bodies of the root file; the general site theorems keep hlater. Still the "
              "oracle, not a theorem: that the generator's expected declaration is the one findLocal picks. "
              "Known findings: body `let` overrides create a second field symbol (2 signatures).",
         tech="Lean 4 proof (algebraic laws of the scope stack + Hoare triples per block construct) + differential correspondence + generator oracle",
@@ -136,8 +137,10 @@ CLAIMS = {
              "arity, type annotation and operand-list contracts (17 inline two-operand comparisons listed as not covered). "
              "Attribution: diagnostics_attributed / other_files_unchanged / index_diagnostics_files (every diagnostic belongs to the "
              "file being indexed; indexing an include leaves other files' diagnostics unchanged). Soundness: "
-             "core_no_diagnostics_partial for a small core (class/def without parameters and parents, typed fields initialised by literals "
-             "or by earlier fields of the same body; a decidable judgement, a 7-statement example); beyond it the oracle. "
+             "core_no_diagnostics_partial for a decidable core judgement: classes and defs with parent lists, template parameters with "
+             "literal / earlier-parameter defaults, positional arguments, typed fields initialised by literals, fields in scope "
+             "(own, inherited) or parameters, `let` with and without bit ranges (coreStatementList3/4; two LLVM-style 9-10 statement "
+             "examples checked end to end); class values, defvar, def values and named arguments are beyond it (the oracle). "
              "letItem_unchecked proves the known finding (top-level `let f = v in` checks neither field name nor type).",
         tech="Lean 4 proof (decision logic stated outright: iff-characterisations) + differential correspondence + fault-seeding oracle audited by llvm-tblgen",
         ref="DESIGN.md §7 C13, §12.7"),
@@ -214,7 +217,12 @@ CLAIMS = {
              "(set_root_file depends on the file system, the root and the root's text only). The same histories run on a real "
              "AnalysisHost: the full query set after the history is compared with a freshly started host (order-insensitive where "
              "hash containers are iterated), and file sets / include maps are compared with the model.",
-        note="salsa memoisation/invalidation is trusted (exercised, not modelled). Model: Host.lean vs analysis.rs/file_system.rs/db.rs.",
+        note="salsa memoisation/invalidation is trusted (exercised, not modelled). Model: Host.lean vs analysis.rs/file_system.rs/db.rs. "
+             "C07Ide.lean bridges to the concrete analysis model: fresh_refines_buildWorkspace (the abstract host inputs computed "
+             "with the concrete path/include resolution are exactly those from which Ide.buildWorkspace builds its workspace: same "
+             "file set, root, contents, include maps) and history_independent_ide (after any history ending in an edit-and-select "
+             "the inputs are those of buildWorkspace of the final file system and root, so every handler answer of the Ide model is "
+             "history independent).",
         tech="Lean 4 proof (lock-step relational invariant over the collect_sources worklist) + history correspondence on a real AnalysisHost",
         ref="DESIGN.md §7 C07"),
     "C08": dict(
@@ -263,7 +271,9 @@ CLAIMS = {
              "notification streams of scripted sessions on the real server (until quiescence, detected through the hook's task "
              "counters) are compared with the model's final view and with the reference.",
         note="Model: Session.lean over Host.lean; updates are modelled as running to completion one after the other (justified by C08's "
-             "wait-for-snapshots order).",
+             "wait-for-snapshots order). C11Ide.lean: converges_ide / converges_ide_diag (for sessions over a finite disk the diagnostics "
+             "last published for each workspace file are those of the Ide model's diagnosticsExec on buildWorkspace (disk overlaid by "
+             "buffers) (last touched document)), session_never_fails_ide, versions_monotone_ide.",
         tech="Lean 4 proof (invariants over session histories) + notification-stream correspondence on the real server",
         ref="DESIGN.md §7 C11"),
     "C12": dict(
@@ -271,7 +281,9 @@ CLAIMS = {
              "when reached only through an include), opened_uses_latest_buffer, unopened_uses_disk. Sessions over a root and two "
              "included files whose disk and editor texts differ are run on the real server over a temp directory; the text "
              "analysed for each workspace file is identified through its class name.",
-        note="Model: Session.lean/Host.lean vs server.rs/vfs.rs/file_system.rs; std::fs assumed.",
+        note="Model: Session.lean/Host.lean vs server.rs/vfs.rs/file_system.rs; std::fs assumed. C12Ide.lean: buffers_win_ide (every "
+             "workspace file of the concrete model is the parse of the last text sent for its path, else the disk text), "
+             "opened_uses_latest_buffer_ide, unopened_uses_disk_ide.",
         tech="Lean 4 proof (content-tracks-overlay invariant) + session correspondence on the real server",
         ref="DESIGN.md §7 C12"),
     "C14": dict(
